@@ -129,7 +129,10 @@ bool PyTreeSpec::IsPrefix(const PyTreeSpec &other, const bool &strict) const {
                     EXPECT_EQ(reordered_other_offsets.front(),
                               b->num_nodes,
                               "PyTreeSpec traversal out of range.");
-                    auto original_b = other.m_traversal.crbegin() + (b - other_traversal.crbegin());
+                    // Reorder from a snapshot of the current subtree: an enclosing dict node may
+                    // have already moved this subtree away from its position in `other`.
+                    const std::vector<Node> current_b{b, b + b->num_nodes};
+                    const auto original_b = current_b.cbegin();
                     for (const auto &[i, j] : reordered_index_to_index) {
                         std::copy(original_b + other_offsets[j + 1],
                                   original_b + other_offsets[j],
